@@ -110,6 +110,24 @@ def two_bloc_params(tier):
     return out + extra
 
 
+def three_bloc_params(tier):
+    """Three blocs X, Y, Z (name models and slate_PlackettLuce support any number of blocs)."""
+    out = []
+    for sizes in ((1, 1, 1), (2, 1, 1)):
+        xs, ys, zs = ["x1", "x2"][: sizes[0]], ["y1"], ["z1"]
+        ix = (0.3, 0.7) if sizes[0] == 2 else (1.0,)
+        sup = lambda: {"X": dict(zip(xs, ix)), "Y": {"y1": 1.0}, "Z": {"z1": 1.0}}
+        for props in ((0.5, 0.3, 0.2), (0.6, 0.4, 0.0)):
+            out.append({
+                "slates": {"X": xs, "Y": ys, "Z": zs},
+                "supports": {"X": sup(), "Y": sup(), "Z": sup()},
+                # inner dictionaries deliberately list the slates in different orders
+                "cohesion": {"X": {"X": 0.6, "Y": 0.3, "Z": 0.1}, "Y": {"Y": 0.7, "Z": 0.1, "X": 0.2}, "Z": {"Z": 1.0, "X": 0.0, "Y": 0.0}},
+                "props": {"X": props[0], "Y": props[1], "Z": props[2]},
+            })
+    return out
+
+
 def one_bloc_params(tier):
     out = []
     for size in (2, 3):
